@@ -101,26 +101,31 @@ var (
 	rAnchored  = Rule{"R24-anchored", ruleAnchoredRegex}
 	rQuote     = Rule{"R23-quote", ruleQuoteAlphabet}
 	rCensus    = Rule{"R14c-census", ruleRefusalCensus}
+	rPayload   = Rule{"R16b-payload", rulePayload}
+	rAdvance   = Rule{"R5b-advance", rulePosAdvance}
+	rHdrSpell  = Rule{"R1e-header", ruleHeaderSpelling}
+	rOrder     = Rule{"R27-order", ruleVariableOrder}
+	rPrint     = Rule{"R1e-print", rulePrinters}
 )
 
 func init() {
 	register(&Property{ID: "C01", Title: "HSMS encode->decode round trip",
-		Rules:       []Rule{rEncTab, rHeader, rDispatch, rWidth, rShift, rDecHdr, rMsgLayout, rEndian, only(rIface, "hsms.parser", "consumer:")},
+		Rules:       []Rule{rEncTab, rHeader, rDispatch, rWidth, rShift, rDecHdr, rMsgLayout, rEndian, only(rIface, "hsms.parser", "consumer:"), rPayload, rAdvance},
 		Explanation: "Decides, from the source, the structural conditions every round trip depends on: each node's ToBytes requests the item header of its own E5 format (R1-encode) and the header routine emits the E5 format byte and minimal big-endian length on every cell of the size axis (R26); the decoder maps each of the 256 format-byte values to exactly the factory and width of that E5 code (R1c); every numeric branch reads its own width big-endian, reinterprets it at that width and hands the value to the factory untouched, in a type that factory accepts (R22, R2); multi-byte item lengths are accumulated without losing bits (R4); header fields are read from the offsets they are written to (R21 both directions); multi-byte values are written most significant byte first (R16).",
 		NotDecided:  "equality of values and item trees for all inputs (round-trip equality over run-time data) and the decoder's position arithmetic are not decided; only the listed necessary conditions are.",
 		Assumptions: stdAssumptions})
 	register(&Property{ID: "C02", Title: "Encoded bytes conform to SEMI E5 / E37",
-		Rules:       []Rule{rEncTab, rHeader, rToBytes, rMsgLayout, rEndian, rLimit},
+		Rules:       []Rule{rEncTab, rHeader, rToBytes, rMsgLayout, rEndian, rLimit, rPayload},
 		Explanation: "Compares the encoder with an independent transcription of the standards: format code and element width per node type and byteSize (R1-encode), the item header routine against the E5 reference header for all 14 type names on every cell of the size axis cut at 255|256, 65535|65536, 16777215|16777216 bytes and at every constant the code compares with (R26: format byte, number of length bytes, big-endian length, error beyond the limit), the message layout byte by byte as symbolic terms (R21: 4-byte big-endian length of text+10, session id, W|stream, function, 0, 0, system bytes, item), big-endian payload emission (R16), and that an incomplete item or message encodes to the empty slice on each of its incompleteness conditions separately (R15).",
 		NotDecided:  "payload bytes for all values (two's complement of every integer, IEEE conversion delegated to math.Float*bits, 7-bit ASCII) are decided only as 'the bytes appended are byte(x >> 8k) of the stored value in descending k'; children order in lists and boolean 0/1 emission are not decided.",
 		Assumptions: stdAssumptions})
 	register(&Property{ID: "C03", Title: "HSMS decoder accepts exactly well-formed messages",
-		Rules:       []Rule{rFraming, rSTypes, rDispatch, rDivisible, rShift, rContH, rWidth, only(rIface, "hsms.parser", "consumer:"), only(rCkRep, "ast.New"), only(rAllocH, "R6-alloc")},
+		Rules:       []Rule{rFraming, rSTypes, rDispatch, rDivisible, rShift, rContH, rWidth, only(rIface, "hsms.parser", "consumer:"), only(rCkRep, "ast.New"), only(rAllocH, "R6-alloc"), rAdvance},
 		Explanation: "Every rejection the statement lists that has a structural form is decided as a guard denotation or a dominance fact: at least 14 bytes and success exactly when declared length equals bytes present (R5), PType 0 and exactly the E37 STypes over all 256x5 header byte pairs, with the right constructor per SType (R1d), exactly the 42 E5 format bytes with 1-3 length bytes accepted over all 256 values (R1c), payload length divisible by the element width in all three numeric handlers (R17), all bytes consumed before a data message is built (R5), lengths read without losing bits (R4), declared lengths checked against the remaining input (R6), constructor refusals converted to ok=false (R7), values built through validating factories with agreeing types and widths (R13, R2, R22).",
 		NotDecided:  "that position arithmetic and slice bounds implement the grammar for every byte string, and re-encoding equality, are not decided (an independent reference decoder comparison is dynamic).",
 		Assumptions: stdAssumptions})
 	register(&Property{ID: "C04", Title: "SML print->parse round trip",
-		Rules:       []Rule{rSMLTab, rQuote, only(rSizes, "String:bounds", "bounds->variable", "bounds-flow", "NewASCIINodeVariable", "parseDataItemSize"), only(rLexClass, "upper-emit", "upper-consts")},
+		Rules:       []Rule{rSMLTab, rQuote, only(rSizes, "String:bounds", "bounds->variable", "bounds-flow", "NewASCIINodeVariable", "parseDataItemSize"), only(rLexClass, "upper-emit", "upper-consts"), rHdrSpell, rPrint},
 		Explanation: "Decides that printer and reader use the same alphabets: each of the 14 type keywords is classified by the lexer and dispatched by the parser to the factory and element width of the same format, numbers are read with the item's own bit size (R1e-sml); every ASCII character the printer puts inside a quoted run can be read back there and the value never reaches the output unfiltered, while the reader takes quoted text literally (R23); ASCII-variable bounds are printed from, and parsed into, (min, max) in the same order (R14-size data flow).",
 		NotDecided:  "that parse(print(m)) equals m on values (number formatting, shortest float printing, ellipsis numbering, message-name lexing) is a run-time-value question and is not decided.",
 		Assumptions: stdAssumptions})
@@ -140,7 +145,7 @@ func init() {
 		NotDecided:  "the constant of the linear bound and allocation inside the ast factories beyond 'sized by len(values)' are not decided.",
 		Assumptions: stdAssumptions})
 	register(&Property{ID: "C08", Title: "Comments, whitespace and letter case never change what is parsed",
-		Rules:       []Rule{rLexClass, only(rSMLTab, "keyword-class")},
+		Rules:       []Rule{rLexClass, only(rSMLTab, "keyword-class"), only(rHdrSpell, "prefix-case")},
 		Explanation: "Decides the character classes as sets, by evaluating the lexer states over every rune below U+3100 that is ASCII or Unicode white space: both states skip exactly {space, tab, CR, LF}, the size scanner accepts exactly that set and the size token drops all of it, the comment state gives back only characters both states skip and returns to the interrupted state (R10b); no classifier is applied to a single byte (R10a); every keyword-like token is emitted upper-cased and the parser compares only with upper-case constants (R10c); exactly the 14 keywords and T/F are classified case-insensitively (R1e-sml); comment tokens never reach the grammar (R10d).",
 		NotDecided:  "equality of parses for all layout pairs and that diagnostics move by exactly the inserted lines and columns (arithmetic of lineColumn) are not decided; number-prefix case is decided only through base 0.",
 		Assumptions: stdAssumptions})
@@ -175,7 +180,7 @@ func init() {
 		NotDecided:  "the size scanner in the lexer and what Size() counts for each node are not decided.",
 		Assumptions: stdAssumptions})
 	register(&Property{ID: "C16", Title: "Variable listing, encodability, size",
-		Rules:       []Rule{rToBytes, only(rCkRep, "ListNode", "DataMessage"), only(rImmut, "Variables", "getVariableNames", "variablesSwapKeyValue"), only(rCensus, "ListNode", "duplicated"), only(rHeader, "R26"), only(rLimit, "R14-limit")},
+		Rules:       []Rule{rToBytes, only(rCkRep, "ListNode", "DataMessage"), only(rImmut, "Variables", "getVariableNames", "variablesSwapKeyValue"), only(rCensus, "ListNode", "duplicated"), only(rHeader, "R26"), only(rLimit, "R14-limit"), rOrder, only(rPrint, "variables-at-positions")},
 		Explanation: "An item or message encodes to bytes only when it reports no variables, decided per type by evaluating ToBytes with the variable count bound: a non-zero count forces the empty slice on every reachable return, zero allows bytes; a list returns the empty slice as soon as a child does; a message additionally requires a decided wait bit and a session id, each condition separately (R15); every list construction runs the tree-wide duplicate check because every ListNode allocation is validated (R13); the observers return fresh slices (R12).",
 		NotDecided:  "that the listed order equals the printed order and that Size() equals the number of printed elements are relations between two run-time outputs and are not decided.",
 		Assumptions: stdAssumptions})
